@@ -23,7 +23,9 @@ def sh(cmd, cwd=None, timeout=3600, env=None):
 
 
 def make_wt(tag, ref):
-    wt = "/tmp/seeded_wt_%s_%d" % (tag, os.getpid())
+    # a fixed path per slot lets `go test` reuse cached results for packages the change does not touch
+    slot = os.environ.get("SEEDED_SLOT")
+    wt = "/tmp/seeded_wt_slot%s" % slot if slot else "/tmp/seeded_wt_%s_%d" % (tag, os.getpid())
     sh(["git", "-C", "/repo", "worktree", "remove", "--force", wt])
     rc, out = sh(["git", "-C", "/repo", "worktree", "add", "--detach", wt, ref])
     if rc != 0:
@@ -68,7 +70,8 @@ def confirm(cand, name, ref):
                 rc1, out1 = sh(["bash", "run.sh", binp, wt], cwd=demo, timeout=900)
                 rec["ran"].append("demo/run.sh with the change -> exit %d" % rc1)
                 rec["demo_fails_with"] = rc1 != 0
-                rc2, out2 = sh([sys.executable, os.path.join(VERIF, "harness", "py", "baseline_cmp.py"), wt], timeout=3000)
+                rc2, out2 = sh([sys.executable, os.path.join(VERIF, "harness", "py", "baseline_cmp.py"), wt], timeout=7200,
+                               env=dict(ENV, VERIF_TEST_CACHE="1" if os.environ.get("SEEDED_SLOT") else ""))
                 rec["ran"].append("harness/py/baseline_cmp.py (go test ./... vs the 777 stable tests) -> exit %d: %s" % (rc2, out2.strip().split("\n")[0]))
                 rec["suite_passes_with_change"] = rc2 == 0
                 ok = ok and rec["demo_passes_without"] and rec["demo_fails_with"] and rec["suite_passes_with_change"]
